@@ -194,4 +194,10 @@ theorem tailBytes_length (i : Nat) (bs : List (List Nat)) : 3 * bs.length ≤ (t
     simp only [tailBytes, blockBytes, dataBytes, List.length_append, List.length_cons]
     simp; omega
 
+/-- The blocks `tap2sna`/`tapinfo` pass on to `get_edges` for a PZX file: those with timings. -/
+def pzxEdgeBlocks (blocks : List (Nat × PzxBlock)) : List Block :=
+  blocks.filterMap fun nb => match nb.2.timings with
+    | some t => some { timings := t, data := nb.2.tapeData.getD [], keys := none }
+    | none => none
+
 end TapeFiles
